@@ -36,6 +36,7 @@ class Draw(object):
     n_uniform = 0
     n_expo = 0
     beta_seen = None
+    uniform_args = []
 
 
 def fake_choice(seq):
@@ -47,6 +48,7 @@ def fake_choice(seq):
 
 def fake_uniform(a, b):
     Draw.n_uniform += 1
+    Draw.uniform_args.append([f2b(a), f2b(b)])
     Draw.last_uniform = a + (b - a) * Draw.u
     return Draw.last_uniform
 
@@ -67,10 +69,13 @@ class Pot(object):
     number_separation_arguments = 1
     number_charge_arguments = 2
     der = 0.0
+    ders = None
     calls = []
 
     def derivative(self, velocity, separation, *charges):
         Pot.calls.append([[f2b(x) for x in velocity], [f2b(x) for x in separation], [f2b(x) for x in charges]])
+        if Pot.ders is not None:
+            return Pot.ders[(len(Pot.calls) - 1) % len(Pot.ders)]
         return Pot.der
 
 
@@ -80,6 +85,7 @@ class Estimator(object):
     def __init__(self, seed, cf_scale):
         self.rng = RealRandom(seed)
         self.cf_scale = cf_scale
+        self.dipole_charge = 1.0
         self.calls = []
 
     def derivative_bound(self, lower_corner, upper_corner, direction, calculate_lower_bound=False):
@@ -100,8 +106,12 @@ class Estimator(object):
         self.calls.append([[f2b(x) for x in lower_corner], [f2b(x) for x in upper_corner], direction, f2b(ub), f2b(lb)])
         return ub, lb
 
-    def charge_correction_factor(self, charge):
-        return charge * self.cf_scale
+    def charge_correction_factor(self, charge, target_charges=None):
+        """like the dipole estimators: the factor of the active unit alone, or (two arguments) corrected by the largest
+        |charge| of the target composite object relative to the estimator's reference dipole charge"""
+        if target_charges is None:
+            return charge * self.cf_scale
+        return charge * self.cf_scale * max(abs(c) for c in target_charges) / self.dipole_charge
 
 
 def walker_dump(w, index):
@@ -117,12 +127,21 @@ def run_case(case):
     levels = 1 if case["cell_level"] == 1 and not case.get("composite") else 2
     setting.set_number_of_node_levels(levels)
     setting.set_number_of_root_nodes(4)
-    setting.set_number_of_nodes_per_root_node(1 if levels == 1 else 2)
+    npts = case.get("n_points", 2)
+    setting.set_number_of_nodes_per_root_node(1 if levels == 1 else npts)
     out = {}
     try:
         cells = CuboidPeriodicCells(cells_per_side=list(case["cells_per_side"]))
         est = Estimator(case["bound_seed"], b2f(case["cf_scale"]))
-        handler = LeafUnitCellVetoEventHandler(estimator=est, charge=case["charge"])
+        est.dipole_charge = b2f(case["dipole_charge"]) if "dipole_charge" in case else 1.0
+        if case.get("handler") == "composite":
+            from jellyfysh.event_handler.composite_object_cell_veto_event_handler import \
+                CompositeObjectCellVetoEventHandler
+            from jellyfysh.lifting.inside_first_lifting import InsideFirstLifting
+            handler = CompositeObjectCellVetoEventHandler(estimator=est, lifting=InsideFirstLifting(),
+                                                          charge=case["charge"])
+        else:
+            handler = LeafUnitCellVetoEventHandler(estimator=est, charge=case["charge"])
         with contextlib.redirect_stdout(io.StringIO()):
             handler.initialize(cells, case["cell_level"])
     except Exception as e:  # noqa
@@ -148,13 +167,15 @@ def run_case(case):
             root = Node(Unit(identifier=(0,), position=root_pos, charge=charge, velocity=vel, time_stamp=stamp))
             leaf = root
         else:
-            root = Node(Unit(identifier=(0,), position=root_pos, charge=None, velocity=[v / 2 for v in vel],
-                             time_stamp=Time(stamp.quotient, stamp.remainder)))
+            root = Node(Unit(identifier=(0,), position=root_pos, charge=None, velocity=[v / npts for v in vel],
+                             time_stamp=Time(stamp.quotient, stamp.remainder)), weight=1)
             leaf = Node(Unit(identifier=(0, 0), position=[b2f(x) for x in q["leaf_pos"]], charge=charge, velocity=vel,
-                             time_stamp=stamp))
-            other = Node(Unit(identifier=(0, 1), position=[b2f(x) for x in q["leaf_pos"]], charge=charge))
+                             time_stamp=stamp), weight=1.0 / npts)
             root.add_child(leaf)
-            root.add_child(other)
+            lch = q.get("lcharges") or [q["charge"]] * (npts - 1)
+            for k in range(1, npts):
+                root.add_child(Node(Unit(identifier=(0, k), position=[b2f(x) for x in q["leaf_pos"]],
+                                         charge={"q": b2f(lch[k - 1])})))
         cf = est.charge_correction_factor(charge["q"] if case["charge"] else 1.0)
         w = (handler._upper_bound_walker if cf > 0.0 else handler._lower_bound_walker)[d]
         row = q["row"]
@@ -185,7 +206,39 @@ def run_case(case):
         res["calls"] = [Draw.n_choice, Draw.n_uniform, Draw.n_expo]
         res["beta_seen"] = None if Draw.beta_seen is None else f2b(Draw.beta_seen)
         out_q = q.get("out")
-        if out_q is not None and "exc" not in res:
+        if out_q is not None and "exc" not in res and case.get("handler") == "composite":
+            # CompositeObjectCellVetoEventHandler.send_out_state: empty cell (None) or a target composite object
+            Draw.n_uniform = 0
+            Draw.uniform_args = []
+            Pot.calls = []
+            o = {"vel_before": [f2b(x) for x in leaf.value.velocity]}
+            leaves = [c for c in root.children]
+            try:
+                if out_q["mode"] == "empty":
+                    st = handler.send_out_state(None)
+                else:
+                    Pot.ders = [b2f(x) for x in out_q["ders"]]
+                    Draw.u = b2f(out_q["uc"])
+                    troot = Node(Unit(identifier=(1,), position=[b2f(x) for x in out_q["tpos"]], charge=None), weight=1)
+                    for k, tc in enumerate(out_q["tcharges"]):
+                        troot.add_child(Node(Unit(identifier=(1, k), position=[b2f(x) for x in out_q["tleafpos"][k]],
+                                                  charge={"q": b2f(tc)}), weight=1.0 / npts))
+                    leaves = leaves + list(troot.children)
+                    st = handler.send_out_state(troot)
+                o["same_list"] = st is in_state
+                o["state_ids"] = [list(n.value.identifier) for n in st]
+                o["leaf_vels"] = [[list(c.value.identifier),
+                                   None if c.value.velocity is None else [f2b(x) for x in c.value.velocity]]
+                                  for c in leaves]
+            except Exception as e:  # noqa
+                o["exc"] = exc_enum(e)
+            finally:
+                Pot.ders = None
+            o["n_uniform"] = Draw.n_uniform
+            o["uniform_args"] = Draw.uniform_args
+            o["pot_calls"] = Pot.calls
+            res["out"] = o
+        elif out_q is not None and "exc" not in res:
             # LeafUnitCellVetoEventHandler.send_out_state: empty target cell (None) or a root-level target unit
             Draw.n_uniform = 0
             Draw.last_uniform = None
